@@ -92,10 +92,14 @@ def errOf : TapeMachine.Fault Err → Err
   | .call e => e
   | .named _ => .invalidTap
 
+/-- model state → source state → model state is the identity -/
 theorem back_conv (x : Tape.TapeState) : back (conv x) = x := by cases x <;> rfl
+/-- source state → model state → source state is the identity -/
 theorem conv_back (y : TapeMachine.TapeState) : conv (back y) = y := by cases y <;> rfl
+/-- model tape → source struct → model tape is the identity -/
 theorem ofSrc_toSrc (t : Tap) : ofSrc (toSrc t) = t := by
   simp [ofSrc, toSrc, back_conv]
+/-- source struct → model tape → source struct is the identity -/
 theorem toSrc_ofSrc (s : Src) : toSrc (ofSrc s) = s := by
   simp [ofSrc, toSrc, conv_back]
 
@@ -284,6 +288,26 @@ theorem arm_play_is_model (t : Tap) (clocks : Nat) :
             simp [withRd, toSrc, conv, hb, TapeMachine.PILOT_LENGTH, PILOT_LENGTH, TapeMachine.PILOT_PULSES_HEADER,
               TapeMachine.PILOT_PULSES_DATA, PILOT_PULSES_HEADER, PILOT_PULSES_DATA]
 
+/-- **The arms read off syntactically, in source order** (variant; number of `curr_bit = !curr_bit` statements;
+the delays assigned; the states assigned; the calls on `self`; the number of `break`s; whether a path reaches
+the end of the arm so that the loop goes round again): `Stop`, `Play` and `NextByte` make no edge themselves,
+every other arm toggles the level exactly once; only `Play` (no block left) and `NextByte` go round again;
+the reader is consulted in `Play` and `NextByte` only, `rewind` is called in `Stop` only. (A syntactic
+tie: a rewrite of an arm that keeps its meaning but not these lists is reported by this theorem alone.) -/
+theorem arm_table_extracted :
+    TapeMachine.armTable.map (fun r => (r.variant, r.toggles, r.delays, r.successors, r.calls, r.breaks, r.fallsThrough)) =
+    [("Stop", 0, [], ["TapeState::Stop"], ["rewind?"], 1, false),
+     ("Play", 0, ["PILOT_LENGTH"], ["TapeState::Stop", "TapeState::Pilot{pulses_left: pulses_left}"],
+        ["next_block?", "next_block_byte?"], 1, true),
+     ("Pilot", 1, ["SYNC1_LENGTH", "PILOT_LENGTH"], ["TapeState::Sync", "TapeState::Pilot{pulses_left: pulses_left}"], [], 1, false),
+     ("Sync", 1, ["SYNC2_LENGTH"], ["TapeState::NextBit{mask: 128}"], [], 1, false),
+     ("NextByte", 0, [], ["TapeState::NextBit{mask: 128}", "TapeState::Pause"], ["next_block_byte?"], 0, true),
+     ("NextBit", 1, ["BIT_ZERO_LENGTH", "BIT_ONE_LENGTH"],
+        ["TapeState::BitHalf{half_bit_delay: BIT_ZERO_LENGTH, mask: mask}",
+         "TapeState::BitHalf{half_bit_delay: BIT_ONE_LENGTH, mask: mask}"], [], 1, false),
+     ("BitHalf", 1, ["half_bit_delay"], ["TapeState::NextByte", "TapeState::NextBit{mask: mask}"], [], 1, false),
+     ("Pause", 1, ["PAUSE_LENGTH"], ["TapeState::Play"], [], 1, false)] := rfl
+
 /-! ### the loop, `process_clocks` -/
 
 /-- `match self.state` dispatches on the model's state -/
@@ -333,5 +357,129 @@ theorem machine_is_fire (t : Tap) (clocks fuel : Nat) :
         rcases nextBlockByte rd1 with ⟨_ | ob, rd2⟩
         · simp [errOf]
         · cases ob <;> simp [errOf]
+
+/-- **`process_clocks` as it stands in the source is the model's `processClocks`** (repaired variant), for every
+tape state, every `clocks` and every loop bound of at least two rounds: same struct afterwards, same error. -/
+theorem process_clocks_is_model (t : Tap) (clocks fuel : Nat) :
+    (TapeMachine.processClocks calls (fuel + 2) (toSrc t) clocks).1 = toSrc (processClocks true t clocks).2 ∧
+    (TapeMachine.processClocks calls (fuel + 2) (toSrc t) clocks).2.map errOf = (processClocks true t clocks).1 := by
+  simp only [TapeMachine.processClocks, gate_is_model, processClocks]
+  by_cases hs : t.state = .stop
+  · simp [hs]
+  · by_cases hd : t.delay > 0
+    · simp [hs, hd]
+    · simp only [hs, hd, if_false]
+      exact machine_is_fire t clocks fuel
+
+/-- one round of the loop does not look at `clocks` -/
+theorem round_ignores_clocks (s : Src) (c1 c2 : Nat) :
+    TapeMachine.round calls s c1 = TapeMachine.round calls s c2 := by
+  unfold TapeMachine.round
+  split <;> rfl
+
+/-- **A firing call ignores its `clocks` argument.** When a running deck has no delay pending, the call runs the
+state machine and the result does not depend on how many clocks were passed: whatever the previous call
+overshot and whatever this call brings is not subtracted from the new delay (no remainder is carried). -/
+theorem firing_ignores_clocks (t : Tap) (fuel c1 c2 : Nat) (hs : t.state ≠ .stop) (hd : t.delay = 0) :
+    TapeMachine.processClocks calls fuel (toSrc t) c1 = TapeMachine.processClocks calls fuel (toSrc t) c2 := by
+  have hm : ∀ (fuel : Nat) (s : Src), TapeMachine.machine calls fuel s c1 = TapeMachine.machine calls fuel s c2 := by
+    intro fuel
+    induction fuel with
+    | zero => intro s; rfl
+    | succ n ih =>
+      intro s
+      simp only [TapeMachine.machine, round_ignores_clocks s c1 c2]
+      split <;> simp [ih]
+  simp only [TapeMachine.processClocks, gate_is_model, hs, hd, if_false, Nat.lt_irrefl, gt_iff_lt]
+  exact hm fuel _
+
+/-! ### command histories on the source's functions; the theorems of Props/C12 and Props/C11 restated -/
+
+/-- one deck command carried out by the translated functions -/
+def srcCmd (fuel : Nat) (s : Src) : DeckCmd → Src × Option (TapeMachine.Fault Err)
+  | .play => (TapeMachine.play s, none)
+  | .stop => (TapeMachine.stop s, none)
+  | .rewind => TapeMachine.rewind calls s
+  | .advance n => TapeMachine.processClocks calls fuel s n
+
+/-- a command history on the translated functions; stops at the first error -/
+def srcRun (fuel : Nat) : List DeckCmd → Src → Src × Option (TapeMachine.Fault Err)
+  | [], s => (s, none)
+  | c :: cs, s =>
+    match srcCmd fuel s c with
+    | (s', some f) => (s', some f)
+    | (s', none) => srcRun fuel cs s'
+
+/-- **Every deck command on the source's functions is the model's `Tap.cmd`.** -/
+theorem src_cmd_is_model (t : Tap) (c : DeckCmd) (fuel : Nat) :
+    (srcCmd (fuel + 2) (toSrc t) c).1 = toSrc (Tap.cmd true t c).2 ∧
+    (srcCmd (fuel + 2) (toSrc t) c).2.map errOf = (Tap.cmd true t c).1 := by
+  cases c with
+  | play => exact ⟨play_is_model t, rfl⟩
+  | stop => exact ⟨stop_is_model t, rfl⟩
+  | rewind => simp [srcCmd, rewind_is_model, Tap.cmd]
+  | advance n => exact process_clocks_is_model t n fuel
+
+/-- **Every command history on the source's functions is the model's run**: same struct, same error. -/
+theorem src_run_is_model (cmds : List DeckCmd) (t : Tap) (fuel : Nat) :
+    (srcRun (fuel + 2) cmds (toSrc t)).1 = toSrc (runCmds true cmds t).2 ∧
+    (srcRun (fuel + 2) cmds (toSrc t)).2.map errOf = (runCmds true cmds t).1 := by
+  induction cmds generalizing t with
+  | nil => exact ⟨rfl, rfl⟩
+  | cons c cs ih =>
+    obtain ⟨h1, h2⟩ := src_cmd_is_model t c fuel
+    simp only [srcRun, runCmds]
+    rcases hm : Tap.cmd true t c with ⟨_ | e, t'⟩
+    · rw [hm] at h1 h2
+      rcases hx : srcCmd (fuel + 2) (toSrc t) c with ⟨s', _ | f⟩
+      · rw [hx] at h1; simp only at h1; subst h1
+        exact ih t'
+      · rw [hx] at h2; simp at h2
+    · rw [hm] at h1 h2
+      rcases hx : srcCmd (fuel + 2) (toSrc t) c with ⟨s', _ | f⟩
+      · rw [hx] at h2; simp at h2
+      · rw [hx] at h1 h2; simp only at h1 h2 ⊢
+        exact ⟨h1, h2⟩
+
+/-- **Cassette-deck refinement, about the source text** (C12's `deck_refinement` and `deck_observables` carried
+over): for every well-formed tape and every finite history of play / stop / rewind / advance n run on the
+translated `play`, `stop`, `rewind`, `process_clocks` from `from_asset`, no call fails, and afterwards
+`current_bit()` is the deck's level and `!can_fast_load()` (running) is the deck's motor. -/
+theorem deck_refinement_src (blocks : List (List Byte)) (tail : List Byte) (hwf : WellFormed blocks)
+    (ht : tail.length < 2) (cmds : List DeckCmd) (fuel : Nat) :
+    let r := srcRun (fuel + 2) cmds (toSrc (Tap.new (Spec.encode blocks ++ tail)))
+    let d := cmds.foldl Spec.Deck.cmd (Spec.Deck.init blocks)
+    r.2 = none ∧ TapeMachine.currentBit r.1 = d.level ∧ (!TapeMachine.canFastLoad r.1) = d.playing
+      ∧ Sim true blocks tail (ofSrc r.1) d := by
+  obtain ⟨h1, h2⟩ := src_run_is_model cmds (Tap.new (Spec.encode blocks ++ tail)) fuel
+  obtain ⟨he, hsim⟩ := C12.deck_refinement blocks tail hwf ht cmds
+  obtain ⟨hl, hp⟩ := C12.deck_observables blocks tail hwf ht cmds
+  simp only at hl hp ⊢
+  rw [he] at h2
+  refine ⟨by simpa using h2, ?_, ?_, ?_⟩
+  · rw [h1, (getters_are_model _).2]; exact hl
+  · rw [h1, (getters_are_model _).1, ← hp]
+    simp only [Tap.canFastLoad, bne]
+    rfl
+  · rw [h1, ofSrc_toSrc]; exact hsim
+
+/-- **Stop then play resumes where it stopped, about the source text** (C12's `resume_exact` carried over): on a
+running deck, `stop`, then any mixture of further `stop`s and passing time, then `play` — carried out by the
+translated functions — leaves every field of the struct as it was when the deck was stopped, except that
+`prev_state` now records that state; no call fails. -/
+theorem resume_exact_src (s : Src) (hs : TapeMachine.canFastLoad s = false) (ws : List DeckCmd)
+    (hws : ∀ c ∈ ws, c = .stop ∨ ∃ n, c = .advance n) (fuel : Nat) :
+    srcRun (fuel + 2) ([.stop] ++ ws ++ [.play]) s = ({ s with prev_state := s.state }, none) := by
+  have hrun : (ofSrc s).state ≠ .stop := by
+    have := (getters_are_model (ofSrc s)).1
+    rw [toSrc_ofSrc, hs] at this
+    simpa [Tap.canFastLoad] using this.symm
+  obtain ⟨h1, h2⟩ := src_run_is_model ([.stop] ++ ws ++ [.play]) (ofSrc s) fuel
+  rw [toSrc_ofSrc, C12.resume_exact (ofSrc s) hrun ws hws] at h1 h2
+  have h3 : (srcRun (fuel + 2) ([.stop] ++ ws ++ [.play]) s).2 = none := by simpa using h2
+  have h4 : toSrc { ofSrc s with prevState := (ofSrc s).state } = { s with prev_state := s.state } := by
+    simp [toSrc, ofSrc, conv_back]
+  rw [h4] at h1
+  exact Prod.ext h1 h3
 
 end ZxVerif.C12X
